@@ -4,14 +4,14 @@ EXTENDS SnapInt, TLC, Json
 
 CONSTANTS N
 
-VARIABLES ops, exps
-hvars == <<val, saved, ops, exps>>
+VARIABLES ops, exps, v0     \* v0: the value the counter was constructed with (SnapshottingInt(value); the default is 0)
+hvars == <<val, saved, ops, exps, v0>>
 
-HInit == IInit /\ ops = <<>> /\ exps = <<>>
-Rec(name) == Len(ops) < N /\ ops' = Append(ops, name) /\ exps' = Append(exps, val')
+HInit == val \in {0, 2} /\ saved = <<>> /\ v0 = val /\ ops = <<>> /\ exps = <<>>
+Rec(name) == Len(ops) < N /\ ops' = Append(ops, name) /\ exps' = Append(exps, val') /\ UNCHANGED v0
 
 HNext == \/ (Inc /\ Rec("inc")) \/ (Dec /\ Rec("dec")) \/ (Zero /\ Rec("zero"))
          \/ (ISnapshot /\ Rec("snapshot")) \/ (IRestore /\ Rec("restore")) \/ (IDrop /\ Rec("drop"))
 HSpec == HInit /\ [][HNext]_hvars
-Emit == Len(ops) = N => PrintT(ToJson([ops |-> ops, exp |-> exps]))
+Emit == Len(ops) = N => PrintT(ToJson([ops |-> ops, exp |-> exps, start |-> v0]))
 =============================================================================
